@@ -11,12 +11,13 @@
  *   calls at its gaps (a sender running on another core that is slow between two of its atomic operations).
  *
  * ops (same protocol as `librfn_model isr`, see lean/Librfn/Driver/Isr.lean):
- *   reset | cfg <event queue depth> <kind>* | next <T> <script> | run <f> <script> | kill <f> <script>
+ *   reset | cfg <event queue depth> <kind>* | next <T> <body> <script> | run <f> <script> | kill <f> <script>
  *   isr <call> <nested script> | thread <call> (%<gap> next:<T>|run:<f>|kill:<f> <script>)* | quiesce | --
  * output: one line per op, tokens in execution order:
  *   N pass begins   L main context read kernel.atomic_runq.full_flags   d<f> entry point of f invoked   p<stamp> handler
  *   processed an event   t<0|1> fibre_timeout result   r<y|w> entry point returned   +<f> fetch_or publishing a run request
  *   C<stamp> compare-exchange handing out the event buffer that will carry <stamp>   <lvl><A<f>|E<stamp>>=<result>/<atomic ops>   (E: c = claim failed)
+ *   R<g> / K<g>=<0|1> fibre_run(g) / fibre_kill(g) called by the running (scripted) fibre
  *   next(<T>):self=<fibre_self>:wake=<returned>:n=<atomic ops> | run(<f>):n=.. | kill(<f>)=<0|1>:n=..
  *   unfired=<scripted calls whose gap never came up>      quiesce: … Q:<idle|busy>:taint=<kernel.taint_flags>
  * A hang (corrupted list) is cut by SIGALRM: "!! HANG", exit 3. */
@@ -32,6 +33,7 @@
 #define MAXCALLS 256
 #define MAXCH 64
 #define MAXDEPTH 8
+#define MAXBODY 16
 
 /* ------------------------------------------------------------------ scenario state */
 static fibre_eventq_t evq;              /* fibre 0 = &evq.fibre */
@@ -97,6 +99,8 @@ typedef struct {
 	int k, post;          /* the gap of the parent at which this call runs */
 	int lvl;              /* senders: 0 interrupt, 1 nested interrupt, 2 thread */
 	int nchild, child[MAXCH];
+	/* 'N' only: what the dispatched fibre does if it is a scripted one ('c'): calls, then its return code */
+	int nbody, bodypos; char bkind[MAXBODY]; int barg[MAXBODY]; char bret;
 } call_t;
 static call_t calls[MAXCALLS];
 static int ncalls, nfired;
@@ -214,6 +218,20 @@ static int entry(fibre_t *f)
 	case 'y':
 		if (budget[id] > 0) { budget[id]--; r = PT_YIELDED; }
 		break;
+	case 'c': {
+		/* scripted body (like C01's): fibre_run / fibre_kill calls made by the running fibre, then the scripted return code.
+		 * The calls execute inside the frame of the enclosing fibre_scheduler_next: their atomic operations continue its numbering. */
+		call_t *pass = depth ? stack[depth - 1].c : NULL;
+		if (pass && pass->type == 'N') {
+			while (pass->bodypos < pass->nbody) {
+				int i = pass->bodypos++;
+				if (pass->bkind[i] == 'r') { fibre_run(fp(pass->barg[i])); out("R%d", pass->barg[i]); }
+				else out("K%d=%d", pass->barg[i], fibre_kill(fp(pass->barg[i])) ? 1 : 0);
+			}
+			r = pass->bret == 'y' ? PT_YIELDED : pass->bret == 'e' ? PT_EXITED : pass->bret == 'f' ? PT_FAILED : PT_WAITING;
+		}
+		break;
+	}
 	case 's':
 		if (fibre_timeout(sdue[id])) {
 			out("t1");
@@ -281,7 +299,7 @@ static call_t *new_call(char type, long long arg, int k, int post, int lvl, call
 		return NULL;
 	call_t *c = &calls[ncalls];
 	memset(c, 0, sizeof *c);
-	c->type = type; c->arg = arg; c->k = k; c->post = post; c->lvl = lvl;
+	c->type = type; c->arg = arg; c->k = k; c->post = post; c->lvl = lvl; c->bret = 'w';
 	if (parent)
 		parent->child[parent->nchild++] = ncalls;
 	ncalls++;
@@ -311,7 +329,16 @@ static char *parse_script(call_t *owner, call_t **isr0, int have_pt, int *ok)
 	char *t;
 	while ((t = strtok(NULL, " \n"))) {
 		char type; long long arg;
-		if (t[0] == '@') { if (!parse_gap(t + 1, &k, &post)) { *ok = 0; return NULL; } have_pt = 1; have_npt = 0; }
+		if (t[0] == 'b' && (t[1] == ':' || t[1] == '=')) {
+			/* body tokens: only directly after the call, before any script token */
+			long long g;
+			if (!owner || have_pt || last) { *ok = 0; return NULL; }
+			if (t[1] == '=') { if (!strchr("ywef", t[2]) || !t[2] || t[3]) { *ok = 0; return NULL; } owner->bret = t[2]; }
+			else if ((t[2] == 'r' || t[2] == 'k') && parse_num(t + 3, 0, NF - 1, &g) && owner->nbody < MAXBODY) {
+				owner->bkind[owner->nbody] = t[2]; owner->barg[owner->nbody] = (int)g; owner->nbody++;
+			} else { *ok = 0; return NULL; }
+		}
+		else if (t[0] == '@') { if (!parse_gap(t + 1, &k, &post)) { *ok = 0; return NULL; } have_pt = 1; have_npt = 0; }
 		else if (t[0] == '^') { if (!parse_gap(t + 1, &nk, &npost)) { *ok = 0; return NULL; } have_npt = 1; }
 		else if (t[0] == 'A' || t[0] == 'E') {
 			if (!have_pt || !parse_sender(t, 1, &type, &arg)) { *ok = 0; return NULL; }
@@ -363,6 +390,7 @@ int main(void)
 			while (ok && (t = strtok(NULL, " \n"))) {
 				if (n >= NF) { ok = 0; break; }
 				if (!strcmp(t, "w")) nk[n] = 'w';
+				else if (!strcmp(t, "c")) nk[n] = 'c';
 				else if (t[0] == 'y' && parse_num(t + 1, 0, 1000000, &v)) { nk[n] = 'y'; nb[n] = (unsigned)v; }
 				else if (t[0] == 's' && parse_num(t + 1, 0, 4294967295LL, &v)) { nk[n] = 's'; np[n] = (uint32_t)v; }
 				else ok = 0;
